@@ -33,10 +33,15 @@ namespace cppcms {
 			}
 			void clear()
 			{
-				while(pages_->next) {
-					page *p = pages_;
-					pages_ = pages_->next;
+				// keep the head of the list: it is always a regular page of page_size_ bytes
+				// (add_page() pushes regular pages at the head, the dedicated blocks that
+				// allocate_space() makes for long strings are linked in behind it and may be smaller)
+				page *p = pages_->next;
+				pages_->next = 0;
+				while(p) {
+					page *next = p->next;
 					free(p);
+					p = next;
 				}
 				data_ = pages_->data;
 				free_space_ = page_size_;
